@@ -264,7 +264,9 @@ class ExecS(Exec):
                 self.oblige(f"index", "index", st, z3.And(0 <= i, i < base.n), node)
                 if isinstance(base.elem, api.ObjT):
                     from . import heap
-                    oid = fresh("id.upd", I)
+                    oid = v.fields.get("__id__") if isinstance(v, ObjV) else None
+                    if oid is None:
+                        oid = fresh("id.upd", I)
                     out = []
                     heap.facts(base.elem, base.elem.cls, "", oid, v, out)
                     st.pc += out
